@@ -212,6 +212,69 @@ def caldb_table():
     return '\n'.join(out) + '\n'
 
 
+SPEC_MODULES = ['ixpeobssim.evt.fmt', 'ixpeobssim.binning.fmt', 'ixpeobssim.irfgen.fmt', 'ixpeobssim.instrument.charging', 'ixpeobssim.evt.ixpesim']
+
+
+def spec_classes():
+    """every module-level subclass of xBinTableHDUBase / xPrimaryHDU of the format modules, in source order"""
+    from ixpeobssim.core.fitsio import xBinTableHDUBase, xPrimaryHDU
+    res = []
+    for mn in SPEC_MODULES:
+        mod = importlib.import_module(mn)
+        for name, obj in vars(mod).items():
+            if isinstance(obj, type) and obj.__module__ == mn and issubclass(obj, (xBinTableHDUBase, xPrimaryHDU)):
+                res.append((mn, name, obj, issubclass(obj, xBinTableHDUBase)))
+    return res
+
+
+def specs_table():
+    """DATA_SPECS / HEADER_KEYWORDS of every HDU class and the constants of utils/time_.py, as Lean literals (C19)."""
+    from ixpeobssim.utils import time_
+    from ixpeobssim.core import fitsio
+    import numpy
+
+    def opt(x):
+        return 'none' if x is None else 'some %s' % lstr(str(x))
+    out = ['/-! Generated by translator/gen.py from the /repo working tree (class attributes of the format modules, constants of utils/time_.py and '
+           'core/fitsio.py) — do not edit. -/', 'namespace Gen', '']
+    names = []
+    for mn, name, cls, is_table in spec_classes():
+        key = '%s_%s' % (mn.split('.')[-2], name)
+        if is_table:
+            items = []
+            for it in cls.DATA_SPECS:
+                if not isinstance(it, (tuple, list)):
+                    raise Untranslatable('DATA_SPECS item of %s is not a tuple' % name)
+                items.append('[%s]' % ', '.join(opt(x) for x in it))
+            out.append('/-- `%s.%s.DATA_SPECS` -/' % (mn, name))
+            out.append('def specs_%s : List (List (Option (List Nat))) := [%s]' % (key, ',\n  '.join(items)))
+        kws = [str(k[0]) for k in cls.HEADER_KEYWORDS]
+        out.append('/-- keyword names of `%s.%s.HEADER_KEYWORDS` -/' % (mn, name))
+        out.append('def keywords_%s : List (List Nat) := [%s]' % (key, ', '.join(lstr(k) for k in kws)))
+        names.append((key, '%s.%s' % (mn.split('.')[-2], name), getattr(cls, 'NAME', None), is_table))
+    out.append('/-- (package.class name, EXTNAME, DATA_SPECS) of every binary-table class -/')
+    out.append('def specTables : List (List Nat × Option (List Nat) × List (List (Option (List Nat)))) := [%s]' % ',\n  '.join(
+        '(%s, %s, specs_%s)' % (lstr(n), opt(ext), k) for k, n, ext, t in names if t))
+    out.append('def keywordTables : List (List Nat × List (List Nat)) := [%s]' % ',\n  '.join('(%s, keywords_%s)' % (lstr(n), k) for k, n, ext, t in names))
+    out.append('')
+    out.append('/-- `FITS_TO_NUMPY_TYPE_DICT`: format code -> (kind: 0 float / 1 int, bits) -/')
+    kinds = []
+    for code, tp in fitsio.FITS_TO_NUMPY_TYPE_DICT.items():
+        dt = numpy.dtype(tp)
+        kinds.append('(%s, %d, %d)' % (lstr(code), 0 if dt.kind == 'f' else 1, dt.itemsize * 8))
+    out.append('def fitsNumpyTypes : List (List Nat × Nat × Nat) := [%s]' % ', '.join(kinds))
+    out.append('')
+    d = time_.MISSION_START_DATETIME
+    out.append('/-- `utils/time_.py` -/')
+    out.append('def missionStartUnixTime : Int := %d' % time_.MISSION_START_UNIX_TIME)
+    out.append('def missionStartMjd : Int := %d' % time_.MISSION_START_MJD)
+    out.append('def missionStartDatetime : List Int := [%d, %d, %d, %d, %d, %d, %d]' % (d.year, d.month, d.day, d.hour, d.minute, d.second, d.microsecond))
+    out.append('def datetimeFmt : List Nat := %s' % lstr(time_.DATETIME_FMT))
+    out.append('')
+    out.append('end Gen')
+    return '\n'.join(out) + '\n'
+
+
 def main():
     update = '--update-golden' in sys.argv
     golden = json.load(open(GOLDEN)) if os.path.exists(GOLDEN) else {}
@@ -277,6 +340,11 @@ def main():
         changed |= write_if_changed(os.path.join(GEN, 'Caldb.lean'), caldb_table())
     except Exception as e:
         status['caldb'] = 'failed: %s' % e
+    try:
+        changed |= write_if_changed(os.path.join(GEN, 'Specs.lean'), specs_table())
+        status['specs'] = 'ok'
+    except Exception as e:
+        status['specs'] = 'failed: %s' % e
     try:
         import rngsites
         txt, info = rngsites.table(os.environ.get('IXPE_REPO', os.path.dirname(os.path.dirname(importlib.import_module('ixpeobssim').__file__))))
